@@ -509,6 +509,12 @@ func runC07(c *Ctx) {
 										}
 									}
 								}
+								// ... or by slices.Index / IndexFunc over this same listing
+								if hc, isCall := strip(ia.Index).(*ssa.Call); isCall && strings.HasPrefix(calleeName(hc), "slices.Index") && len(hc.Call.Args) == 2 {
+									if al, isLd := strip(hc.Call.Args[0]).(*ssa.UnOp); isLd && al.X == ssa.Value(fv) {
+										foundByHelper = true
+									}
+								}
 								if !isForwardRangeIndex(ia.Index) && !foundByHelper {
 									bad = "writes slot " + w.Short(ia.Index) + " of the shared listing"
 								}
